@@ -306,7 +306,7 @@ def byte_trees(ctx, names=('utf8', 'utf8x4', 'utf8x4b', 'mixed', 'mixedlenient')
     files = []
     for n in names:
         consts, plain = models.byte_tree_instance(n, ctx.tier)
-        r = ctx.mc(f'btree_{n}_{ctx.tier}', 'MC_Bytes', consts, plain, ['Dump', 'DecoderIsTable37'], spec='BSpec')
+        r = ctx.mc(f'btree_{n}_{ctx.tier}', 'MC_Bytes', consts, plain, ['Dump', 'DecoderIsTable37', 'BytesAcceptIffGrammar', 'BytesValueIsDenotation'], spec='BSpec')
         files.append(r['out'])
     return files
 
